@@ -108,6 +108,132 @@ def canon_warnings(ws, directory, rows, nm):
     return sorted(out)
 
 
+def stray_top_probe():
+    """a value file added directly IN the cache directory (and in a FanoutCache shard directory), not in
+    the two-level value tree: no item refers to it, so check() reports it, check(fix=True) removes it and
+    a second check is silent (the Lean model of check covers the value tree only; this corner is judged by
+    the statement)"""
+    import shutil
+    import tempfile
+    import warnings
+    import diskcache
+    root = os.environ.get('VERIF_SCRATCH') or tempfile.gettempdir()
+    bad = []
+    for kind in ('cache', 'shard'):
+        d = tempfile.mkdtemp(prefix='c17top-', dir=root)
+        try:
+            if kind == 'cache':
+                c = diskcache.Cache(d, disk_min_file_size=8)
+                where = d
+            else:
+                c = diskcache.FanoutCache(d, shards=2, disk_min_file_size=8)
+                where = os.path.join(d, '001')
+            c.set('k', b'V' * 40)
+            stray = os.path.join(where, '0123456789abcdef0123456789ab.val')
+            with open(stray, 'wb') as f:
+                f.write(b'stray')
+
+            def run_check(fix):
+                return [str(w.message) for w in c.check(fix=fix) if 'empty directory' not in str(w.message)]
+            w1 = run_check(False)
+            if not any('unknown file' in m and m.endswith(os.path.basename(stray)) for m in w1) or len(w1) != 1:
+                bad.append('%s: a value file added directly in the directory: check() reports %r (one "unknown file" expected)' % (kind, w1[:3]))
+            if not os.path.exists(stray):
+                bad.append('%s: plain check() removed the added file' % kind)
+            w2 = run_check(True)
+            if w2 != w1:
+                bad.append('%s: check(fix=True) reports %r, plain check() reported %r' % (kind, w2[:3], w1[:3]))
+            w3 = run_check(False)
+            if w3 or os.path.exists(stray):
+                bad.append('%s: after check(fix=True) the added file is %s and a second check reports %r' % (
+                    kind, 'still there' if os.path.exists(stray) else 'gone', w3[:3]))
+            if c.get('k') != b'V' * 40:
+                bad.append('%s: the undamaged item is no longer readable after the repair' % kind)
+            c.close()
+        except Exception as e:  # noqa
+            bad.append('%s: stray-file probe raised %s: %s' % (kind, type(e).__name__, str(e)[:100]))
+        finally:
+            shutil.rmtree(d, ignore_errors=True)
+    return bad
+
+
+def concurrent_check_probe():
+    """check(fix=True) running while ANOTHER client stores a file-backed item (every schedule with one
+    preemption of the check, under the deterministic scheduler): the repair must leave undamaged items
+    untouched - the new item stays readable and a later check reports nothing"""
+    import shutil
+    import tempfile
+    import warnings
+    import diskcache
+    from impl import Env, scratch_root
+    from sched import Scheduler
+    env = Env.get()
+    bad = []
+    n = 1
+    total = None
+    while total is None or n <= total:
+        d = tempfile.mkdtemp(prefix='c17cc-', dir=scratch_root())
+        env.core.sqlite3._timeout = 0
+        try:
+            env.rec.enabled = False
+            a = diskcache.Cache(d, disk_min_file_size=8, timeout=0)
+            b = diskcache.Cache(d, disk_min_file_size=8, timeout=0)
+            a.set('old', b'O' * 40)
+            env.rec.enabled = True
+            sch = Scheduler(env.rec)
+            out = {}
+
+            def mk(cid):
+                cache = a if cid == 0 else b
+
+                def prepare():
+                    len(cache)
+
+                def execute(op):
+                    try:
+                        if op == 'check':
+                            out[cid] = [str(w.message) for w in cache.check(fix=True, retry=True)]
+                        else:
+                            out[cid] = [cache.set('new', b'N' * 50, retry=True)]
+                    except Exception as e:  # noqa
+                        out[cid] = '!' + type(e).__name__
+                        return 'x'
+                    return 'n'
+                return prepare, ['check' if cid == 0 else 'set'], execute
+            ok = sch.run({0: mk(0), 1: mk(1)}, [0] * n + [1] * 400, max_steps=3000)
+            if total is None:
+                env.core.sqlite3._timeout = None
+                # length of the check alone, in actions: the bound of the enumeration
+                total = sum(1 for t in sch.trace if t[1] == 0) + 2
+            env.core.sqlite3._timeout = None
+            env.rec.enabled = False
+            got_new, got_old = a.get('new'), a.get('old')
+            left = [str(w.message) for w in a.check() if 'empty directory' not in str(w.message)]
+            left = [m.split(':')[0] for m in left]
+            waited = sum(1 for t in sch.trace if t[1] == 1 and t[2] == 'sql' and t[3] == 'BEGIN') > 1
+            if not ok:
+                bad.append('check(fix=True) preempted after %d actions by a set: the two calls did not both finish' % n)
+            elif isinstance(out.get(0), str) or isinstance(out.get(1), str):
+                bad.append('check(fix=True) preempted after %d actions by a set: outcomes %r' % (n, out))
+            elif got_new != b'N' * 50 or got_old != b'O' * 40 or left:
+                how = ('while the set was WAITING for the write lock held by the check (its value file, written before the lock is taken, was removed as unknown)'
+                       if waited else 'although the set had COMPLETED before the check took the write lock')
+                bad.append('check(fix=True) preempted after %d actions by a set of a file-backed item, %s: afterwards get(new) = %s, get(old) = %s, check() reports %r' % (
+                    n, how, 'the value' if got_new == b'N' * 50 else repr(got_new)[:30], 'the value' if got_old == b'O' * 40 else repr(got_old)[:30], left[:3]))
+            a.close()
+            b.close()
+        except Exception as e:  # noqa
+            bad.append('concurrent-check probe (n=%d) raised %s: %s' % (n, type(e).__name__, str(e)[:100]))
+        finally:
+            env.core.sqlite3._timeout = None
+            env.rec.enabled = True
+            shutil.rmtree(d, ignore_errors=True)
+        if len(bad) >= 40:
+            break
+        n += 1
+    return bad, (total or 0)
+
+
 def damage(rng, directory):
     """apply a random combination of damage kinds; returns the list applied"""
     applied = []
@@ -340,14 +466,28 @@ def run(tier, seed, rng, known, replay):
                                           'acceptor': verdict, 'model_part': 'DC.Check.check'},
                                'found_input': bool(verdict),
                                'what': verdict or 'model/implementation correspondence broke in check: %s' % (div or {}).get('impl', '')[:120]})
+    cc_total = 0
+    if not replay:
+        for v_ in stray_top_probe()[:2]:
+            violations.append({'replay': {'property': 'C17', 'kind': 'stray-top-probe', 'acceptor': v_}, 'found_input': True, 'what': v_})
+        cc_bad, cc_total = concurrent_check_probe()
+        cc_new = 0
+        for v_ in cc_bad:
+            k_ = base.match_known(known, {'cfg': {}}, None, v_)
+            if k_ is not None:
+                if k_['what'] not in known_hits:
+                    known_hits.append(k_['what'])
+            elif cc_new < 2:
+                cc_new += 1
+                violations.append({'replay': {'property': 'C17', 'kind': 'concurrent-check-probe', 'acceptor': v_}, 'found_input': True, 'what': v_})
     return {
-        'evaluations': len(seeds) * 3, 'distinct_nontrivial': len(distinct),
+        'evaluations': len(seeds) * 3 + cc_total, 'distinct_nontrivial': len(distinct),
         'rule': 'seeded damage combinations (0-6 of: delete/truncate/extend a value file, add an unknown file in a known or new directory, empty '
                 'directories at level 2 / level 1 / both, wrong Settings.count / Settings.size) on Cache and on one FanoutCache shard; each case runs '
                 'check(), check(fix=True), check(); distinct = distinct (damage set, warning kinds) pairs',
         'samples': [r[3] for r in results[:3]],
         'traces': len(seeds) * 3,
-        'dist': {'damage_kinds': kinds, 'cases': len(seeds), 'unreadable_after_repair': unreadable_total},
+        'dist': {'damage_kinds': kinds, 'cases': len(seeds), 'unreadable_after_repair': unreadable_total, 'check_preemption_points': cc_total},
         'violations': violations, 'known': known_hits,
     }
 
